@@ -270,6 +270,8 @@ impl<T: Sha3Hash> CmRDT for MerkleReg<T> {
     open spec fn cm_pre(&self, op: &Node<T>) -> bool { true }
     open spec fn cm_post(old_: &Self, op: &Node<T>, new_: &Self) -> bool { apply_post_mk(*old_, *op, *new_) }
     open spec fn cm_vpre(&self, op: &Node<T>) -> bool { true }
+    open spec fn cm_vhyp() -> bool { true }
+    open spec fn cm_vflag(&self, op: &Node<T>) -> bool { !ready(self.dg(), *op) }
 
 //@extract fn src/merkle_reg.rs "CmRDT for MerkleReg" validate_op
     fn validate_op(&self, op: &Self::Op) -> /*@ (r: @*/ Result<(), Self::Validation> /*@ ) @*/
@@ -478,6 +480,8 @@ impl<T: Sha3Hash> CvRDT for MerkleReg<T> {
     open spec fn cv_inv(&self) -> bool { hash_ok() && self.inv() }
     open spec fn cv_pre(&self, other: &Self) -> bool { other.inv() }
     open spec fn cv_post(old_: &Self, other: &Self, new_: &Self) -> bool { merge_post_mk(*old_, *other, *new_) }
+    open spec fn cv_vhyp() -> bool { true }
+    open spec fn cv_flag(&self, other: &Self) -> bool { false }
 
 //@extract fn src/merkle_reg.rs "CvRDT for MerkleReg" validate_merge
     fn validate_merge(&self, /*@ _other @*/ /*@<*/ _ /*@>*/ : &Self) -> /*@ (r: @*/ Result<(), Self::Validation> /*@ ) @*/
